@@ -1,6 +1,7 @@
 package main
 
 import (
+	"bytes"
 	"crypto/md5"
 	"crypto/rand"
 	"errors"
@@ -93,6 +94,17 @@ func init() {
 					tag += "-err"
 				}
 				c.Add(T(m.req("encode"), t, tag))
+				// Encode is a function of the packet: it leaves the packet as it was, so encoding it again gives the same bytes
+				if round == 0 {
+					p := m.packet()
+					authBefore := p.Authenticator
+					b1, e1 := p.Encode()
+					b2, e2 := p.Encode()
+					if (e1 == nil) != (e2 == nil) || !bytes.Equal(b1, b2) || p.Authenticator != authBefore {
+						c.Fail("spec", "encode;encode", tag, m.req("encode").Line(""), fmt.Sprintf("second Encode: %x (%v), Authenticator field now %x", b2, e2, p.Authenticator[:]),
+							fmt.Sprintf("%x, Authenticator field %x", b1, authBefore[:]), "Encode computes the wire form from the packet and leaves the packet unchanged: a second Encode returns the same datagram")
+					}
+				}
 			}
 		}
 		// authentic pairs and their corruptions
